@@ -642,10 +642,13 @@ class Context:
         for i, a in enumerate(args):
             others = cache.get(a.key)
             if others is None:
-                others = cache[a.key] = set()
+                # dict is used as an insertion-ordered set: dtype_index
+                # iterates over it and the iteration order of a set of
+                # keys depends on the hash seed of the process
+                others = cache[a.key] = dict()
             for j, b in enumerate(args):
                 if i != j:
-                    others.add(b.key)
+                    others[b.key] = None
 
     def _has_same_dtype(self, x, y):
         if x is y:
